@@ -189,6 +189,118 @@ theorem mxml_time_later_part_partial {sps : List ScorePartEl} {p0 p : PartEl} {m
   rw [hc] at i ht
   exact ⟨stb, st', ms, _, i, hp, by rw [e]; simp, ht, specCursor_of_still hlead⟩
 
+/-- `parseNote` on a note that is not part of a chord and has a `<duration>`, any `R`: its length is
+`secondsOf` of its own duration in the state it was read in, and it leaves divisions and tempo alone -/
+theorem parseNote_plain {R : Rat → Rat} {st : PState} {n : NoteEl} {st' : PState} {pn : PNote} {d : Int}
+    (h : parseNote R st n = .ok (st', pn)) (hc : n.chord = false) (hd : n.duration = some d) :
+    pn.time = st.tp ∧ pn.duration = d ∧ secondsOf R st d = .ok pn.seconds ∧
+    st'.divisions = st.divisions ∧ st'.spq = st.spq := by
+  unfold parseNote at h
+  simp only [] at h
+  split at h
+  · contradiction
+  · split at h
+    · contradiction
+    · rename_i st1 dur time sec grace hdur
+      split at h
+      · contradiction
+      · split at h
+        · contradiction
+        · simp only [Except.ok.injEq, Prod.mk.injEq] at h
+          obtain ⟨rfl, rfl⟩ := h
+          simp only [hd, hc, Bool.false_eq_true, if_false] at hdur
+          split at hdur
+          · contradiction
+          · rename_i sec' hsec
+            simp only [Except.ok.injEq, Prod.mk.injEq] at hdur
+            obtain ⟨rfl, rfl, rfl, rfl, rfl⟩ := hdur
+            exact ⟨rfl, rfl, hsec, rfl, rfl⟩
+
+/-- CHORDS SHARE THEIR FIRST NOTE'S ONSET — EXACTLY, FOR EVERY ROUNDING OPERATOR `R` (in particular for the
+binary64 arithmetic the real parser runs in, not only in exact arithmetic).  Let a `<note>` `n0` be followed in
+its measure by `mid`, a run in which every `<note>` is a `<chord/>` note with a `<duration>` (other elements may
+stand in between).  Then the parser's notes for the run carry LITERALLY the onset (and the duration in
+divisions) of the note built for `n0` — the onset is copied from `previous_note`, never recomputed from the
+cursor — so the reader reports the same `start_time`, bit for bit.  If moreover `n0` is itself not a chord note,
+has a `<duration>`, and the run changes neither divisions nor tempo, the run's notes also have literally the
+same length in seconds and the reader reports the same `end_time`. -/
+theorem mxml_chord_onset_exact (R : Rat → Rat) {pre mid post : List El} {n0 : NoteEl} {st st' : PState}
+    {m m' : MState} (hmid : ∀ e ∈ mid, chordRun e = true)
+    (h : parseEls R st m (pre ++ .note n0 :: (mid ++ post)) = .ok (st', m')) :
+    ∃ a pn0 ch b, m'.notes = ((m.notes ++ a) ++ pn0 :: ch) ++ b ∧
+      a.length = (pre.filter isNote).length ∧ ch.length = (mid.filter isNote).length ∧
+      (∀ pn ∈ ch, pn.time = pn0.time ∧ pn.duration = pn0.duration ∧
+        ∀ part x0 x, readerNote R part pn0 = .ok x0 → readerNote R part pn = .ok x → x.start = x0.start) ∧
+      (∀ d0, n0.chord = false → n0.duration = some d0 → (∀ e ∈ mid, noRetime e = true) →
+        ∀ pn ∈ ch, pn.seconds = pn0.seconds ∧
+          ∀ part x0 x, readerNote R part pn0 = .ok x0 → readerNote R part pn = .ok x → x.end_ = x0.end_) := by
+  obtain ⟨st1, m1, h1, h2⟩ := parseEls_append h
+  simp only [parseEls] at h2
+  split at h2
+  · contradiction
+  · rename_i st2 m2 he
+    obtain ⟨st3, m3, h3, h4⟩ := parseEls_append h2
+    obtain ⟨_, _, ⟨a, ea, la⟩, _, _, _⟩ := parseEls_out h1
+    obtain ⟨_, _, hout⟩ := parseEl_out he
+    simp only [] at hout
+    obtain ⟨st1', pn0, hn0, e0, hprev, _, _⟩ := hout
+    obtain ⟨_, ch, ec, lc, hch, hsec⟩ := parseEls_chordRun hprev hmid h3
+    obtain ⟨_, _, ⟨b, eb, _⟩, _, _, _⟩ := parseEls_out h4
+    have hstart : ∀ (p q : PNote), p.time = q.time → ∀ part x0 x, readerNote R part q = .ok x0 →
+        readerNote R part p = .ok x → x.start = x0.start := by
+      intro p q hpq part x0 x hx0 hx
+      unfold readerNote at hx0 hx
+      split at hx0
+      · contradiction
+      · split at hx
+        · contradiction
+        · simp only [Except.ok.injEq] at hx0 hx
+          subst hx0; subst hx
+          simp only [hpq]
+    have hend : ∀ (p q : PNote), p.time = q.time → p.seconds = q.seconds → ∀ part x0 x,
+        readerNote R part q = .ok x0 → readerNote R part p = .ok x → x.end_ = x0.end_ := by
+      intro p q hpq hs part x0 x hx0 hx
+      unfold readerNote at hx0 hx
+      split at hx0
+      · contradiction
+      · split at hx
+        · contradiction
+        · simp only [Except.ok.injEq] at hx0 hx
+          subst hx0; subst hx
+          simp only [hpq, hs]
+    refine ⟨a, pn0, ch, b, by rw [eb, ec, e0, ea]; simp, la, lc, ?_, ?_⟩
+    · intro pn hpn
+      obtain ⟨t1, t2⟩ := hch pn hpn
+      exact ⟨t1, t2, hstart pn pn0 t1⟩
+    · intro d0 hc0 hd0 hnr pn hpn
+      obtain ⟨t1, _⟩ := hch pn hpn
+      obtain ⟨_, _, s3⟩ := hsec hnr
+      have hs := s3 pn hpn
+      -- the first note's own length: `secondsOf` of its duration in the state before it
+      have he' := he
+      simp only [parseEl] at he'
+      rw [hn0] at he'
+      simp only [Except.ok.injEq, Prod.mk.injEq] at he'
+      obtain ⟨rfl, _⟩ := he'
+      obtain ⟨_, q2, q3, q4, q5⟩ := parseNote_plain hn0 hc0 hd0
+      have : secondsOf R st1 d0 = .ok pn.seconds := by
+        rw [← q2, ← secondsOf_congr R (a := { st1' with prev := some (pn0.duration, pn0.time) }) (b := st1) q4 q5]
+        exact hs
+      rw [q3] at this
+      simp only [Except.ok.injEq] at this
+      exact ⟨this.symm, hend pn pn0 t1 this.symm⟩
+
+/-- non-vacuity, in BINARY64 arithmetic: triads of quarters at 90 qpm (a quarter lasts 2/3 s, inexact), divisions 2;
+the second chord starts at `rne53 (2/3)`, and all three of its notes carry that very number -/
+example : (parseEls rne53 PState.init {}
+    [.attributes [.divisions 2], .direction [⟨some 90, none⟩],
+     .note ⟨.pitched "C" 0 4, false, some 2, none, some "quarter", 0, none⟩,
+     .note ⟨.pitched "E" 0 4, true, some 2, none, some "quarter", 0, none⟩,
+     .note ⟨.pitched "D" 0 4, false, some 2, none, some "quarter", 0, none⟩,
+     .note ⟨.pitched "F" 0 4, true, some 2, none, some "quarter", 0, none⟩,
+     .note ⟨.pitched "A" 0 4, true, some 2, none, some "quarter", 0, none⟩]).map
+    (fun r => r.2.notes.map (·.time)) = .ok [0, 0, rne53 (2/3), rne53 (2/3), rne53 (2/3)] := by decide +kernel
+
 /-- reader: a note starts at its onset (clamped at zero) and ends `seconds` later -/
 theorem mxml_note_times {part : Nat} {n : PNote} {x : Note} (h : readerNote id part n = .ok x) :
     x.start = (if n.time < 0 then 0 else n.time) ∧ x.end_ = x.start + n.seconds := by
